@@ -1,6 +1,7 @@
 import ErgoVerif.Lemmas.EdfTop
 import ErgoVerif.Lemmas.HsCache
 import ErgoVerif.Lemmas.EdfRep
+import ErgoVerif.Lemmas.EdfExcl
 /-!
 # C11 — EDF round trip
 
@@ -46,6 +47,14 @@ theorem C11_partial (o : Opts) (t : Ty) (v : Val) (bs rest : Bytes) (fuel : Nat)
     (hd : DescOK o t) (hl : (encTy o t).length < 65536) (hg : Good o t v) (he : encode o t v = some bs)
     (hf : v.depth ≤ fuel) : decode o fuel (bs ++ rest) = .ok (some (t, v), rest) :=
   C11_top o hc t v bs rest fuel he hd hl hg hf
+
+/-- the same with the exclusions spelled out: the hypotheses of `C11_full` plus `Excl` (no non-empty collection of
+    zero-width elements) and `keysFlat` (no dynamic map type keyed by an unnamed array) — `Good` is exactly
+    `WF ∧ Excl` -/
+theorem C11_partial_explicit (o : Opts) (t : Ty) (v : Val) (bs rest : Bytes) (fuel : Nat) (hc : CachesConsistent o)
+    (hd : DescWF o t) (hk : t.keysFlat) (hl : (encTy o t).length < 65536) (hw : WF o t v) (hx : Excl t v)
+    (he : encode o t v = some bs) (hf : v.depth ≤ fuel) : decode o fuel (bs ++ rest) = .ok (some (t, v), rest) :=
+  C11_partial o t v bs rest fuel hc (DescOK_of_WF o t hd hk) hl (Good_of_WF o v t hw hx) he hf
 
 -- ------------------------------------------------------------------------------------------------
 -- concrete options for witnesses and non-vacuity: no caches, two registered types
